@@ -937,6 +937,20 @@ impl ErasedNode for Node {
             handler.run(self, node_update, now)
         }
         drop(ouh);
+        #[cfg(cormacrelf_incremental_rs_verif)]
+        if let Some(ascending) = crate::verif_knobs::handler_order() {
+            let observers = self.observers.borrow();
+            let mut sorted: Vec<_> = observers.iter().collect();
+            sorted.sort_by_key(|(id, _)| id.verif_usize());
+            if !ascending {
+                sorted.reverse();
+            }
+            for (_id, obs) in sorted {
+                let Some(obs) = obs.upgrade() else { continue };
+                obs.run_all(&*input, node_update, now)
+            }
+            return;
+        }
         let observers = self.observers.borrow();
         for (_id, obs) in observers.iter() {
             let Some(obs) = obs.upgrade() else { continue };
